@@ -28,7 +28,7 @@ class C07(ModelCheck):
                 'active': rng.choice([None, None, 3, 5, 8, 0]),
                 'inactive': rng.choice([None, None, 1, 2, 3, 0]),
                 'closing': closing, 'include': rng.choice([True, True, False, False, 'one', 'zero', 'np_true']) if closing else rng.random() < 0.5,
-                'dt': rng.choice([False, False, False, 'seconds', 'hours', 'hours', 'days', 'days', 'np_int', 'np_uint', 'np_float', 'np_dt64'])}
+                'dt': rng.choice([False, False, False, 'seconds', 'hours', 'hours', 'days', 'days', 'np_int', 'np_uint', 'np_arr0', 'np_float', 'np_dt64'])}
         if closing and rng.random() < 0.15:
             node['closing'] = 'falsy_callable'      # the mapper is a callable object whose truth value is False
         inner = g.pipeline(St('rec', closing or node['active'] == 0 or node['inactive'] == 0), Flags(deny=('time_split', 'progress')), rng.choice([0, 0, 1]), rng.choice([1, 1, 2]))
